@@ -95,14 +95,14 @@ class SCache(Sym):
 class SCount(Sym):
     """len() of a filtered id collection {x : P(x)}: compared with small constants only; "at least k" is stated with k distinct witnesses"""
 
-    def __init__(self, P):
-        self.P = P
+    def __init__(self, P, sort=Id):
+        self.P, self.sort = P, sort
 
     def ge(self, k):
         P = self.P
         if k <= 0:
             return z3.BoolVal(True)
-        xs = [z3.Const(f"cnt_w{k}_{j}", Id) for j in range(k)]
+        xs = [z3.Const(f"cnt_w{k}_{j}_{self.sort.name()}", self.sort) for j in range(k)]
         body = z3.And(*[P(x) for x in xs], *([z3.Distinct(*xs)] if k > 1 else []))
         return z3.Exists(xs, body)
 
